@@ -88,6 +88,60 @@ def gen(args):
     return out
 
 
+def gen_fx(args):
+    """feature-direction PCov-FPS: fixed-point oracle with a verified SVD witness"""
+    wid, n, sd = args
+    import warnings
+    import skmatter.feature_selection as F
+    from harness import selectors as H
+    from harness.pcovr import fq
+    rng = np.random.default_rng([sd, wid, 203])
+    out = []
+    for t in range(n):
+        ns, ni = int(rng.integers(5, 9)), int(rng.integers(3, 7))
+        Xi = rng.integers(-6, 7, size=(ns, ni))
+        if rng.random() < 0.25 and ni >= 3:
+            Xi[:, -1] = Xi[:, 0]                      # duplicated feature
+        Yi = rng.integers(-6, 7, size=(ns, 1))
+        a = int(rng.integers(0, 8))
+        i0 = int(rng.integers(ni))
+        nsel = int(rng.integers(2, ni + 1))
+        X, y = Xi / 4.0, Yi[:, 0] / 4.0
+        c = {"id": "fx%d-%d" % (wid, t), "X": Xi.tolist(), "Y": Yi.tolist(), "a": a, "init": [i0 + 1], "steps": [], "table": [], "raised": False,
+             "svd": {"U": [], "sv": [], "V": []}}
+        obj = F.PCovFPS(mixing=a / 8.0, initialize=i0, n_to_select=nsel)
+        rec = H.Recorder(obj, "fPCovFPS", X, y, 1, False)
+        try:
+            with warnings.catch_warnings():
+                warnings.simplefilter("ignore")
+                ok = rec.fit(nsel, warm=False, with_y=True, init=[i0])
+            if not ok:
+                c["raised"] = True
+            else:
+                for e in rec.events:
+                    if e["a"] == "step" and e["c"] > 0:
+                        pass
+                # re-read the tables in fixed point (the recorder quantised with unit 1)
+                c["steps"] = []
+                calls = rec.calls
+                idx = [int(i) + 1 for i in obj.selected_idx_]
+                for k_, (sv_, nsel_, _) in enumerate(calls):
+                    c["steps"].append({"c": idx[nsel_] if nsel_ < len(idx) else 0, "score": fq(np.minimum(sv_, 6e4))})
+                c["table"] = fq(np.minimum(obj.get_distance(), 6e4))
+            U, sv, Vt = np.linalg.svd(X, full_matrices=False)
+            keep = sv > 1e-6
+            c["svd"] = {"U": fq(U[:, keep]), "sv": fq(sv[keep]), "V": fq(Vt[keep].T)}
+        except Exception as e:  # noqa
+            c["raised"] = True
+            c["msg"] = str(e)[:100]
+        out.append(c)
+    return out
+
+
+def strip_fx(c):
+    return {k: c[k] for k in ("id", "X", "Y", "a", "init", "steps", "table", "raised", "svd")}
+
+
 def strip(c):
     return {k: c[k] for k in ("id", "n", "P", "Q", "wa", "wb", "wantinit", "events")}
 
@@ -107,6 +161,11 @@ def run(tier):
     verdicts, stats = core.validate_cases("trace/TraceFPS.tla", [strip(c) for c in cases])
     rep.add_trace_stats("TraceFPS", stats, len(cases))
     core.judge(rep, cases, verdicts)
+    with mp.Pool(core.NCPU) as pool:
+        fx = [t for part in pool.map(gen_fx, [(w, 6 if tier == "quick" else 80, core.seed()) for w in range(core.NCPU)]) for t in part]
+    v2, st2 = core.validate_cases("trace/TraceFPSFx.tla", [strip_fx(c) for c in fx])
+    rep.add_trace_stats("TraceFPSFx[feature PCov-FPS]", st2, len(fx))
+    core.judge(rep, fx, v2)
     by = {}
     dual_same = dual_all = 0
     byid = {c["id"]: c for c in cases}
